@@ -4,7 +4,7 @@
    Emitting = TRUE the final state of every behaviour is printed ([env, obs]) and replayed on the real application.  *)
 EXTENDS AppRun, Json, TLC
 
-CONSTANTS Apps, Catching, Verbs, MCLines, Pres, MaxListeners, ListenerKinds, ListenerValues, OutValues, OutKinds, Emitting
+CONSTANTS Apps, Catching, Verbs, MCLines, Pres, MaxListeners, ListenerKinds, ListenerValues, OutValues, OutKinds, MCScopes, Emitting
 
 VARIABLE st
 
@@ -35,7 +35,11 @@ ListenerSet == {[b |-> "pass", v |-> "", k |-> ""]}
 ListenerSeqs == UNION {[1..n -> ListenerSet] : n \in 0..MaxListeners}
 Outcomes == {[t |-> "ret", v |-> v, k |-> ""] : v \in OutValues} \cup {[t |-> "raise", v |-> "", k |-> k] : k \in OutKinds}
 
-Envs == {e \in [app : Apps, catch : Catching, verb : Verbs, line : MCLines, pre : Pres, listeners : ListenerSeqs, outcome : Outcomes] :
+ScopesAll == Scopes
+ScopesTwo == {"top", "indent"}
+ScopesTop == {"top"}
+Envs == {e \in [app : Apps, catch : Catching, verb : Verbs, line : MCLines, pre : Pres, listeners : ListenerSeqs, outcome : Outcomes,
+                scope : MCScopes] :
            ~(e.line = "nosuch" /\ e.app = "default")}
 
 Init == \E e \in Envs : st = Start(e)
